@@ -259,6 +259,9 @@ pub enum DigestVerdict {
     Unsupported,
     /// header digest mismatch *and* unsupported payload algorithm: either error is fine
     MismatchOrUnsupported,
+    /// a digest is recorded in its standard tag with an unusual data type and does NOT match: whatever the
+    /// library makes of the type, the answer must not be "all digests match"
+    NotOk,
     /// shape the property does not define (digest tag with a non-standard type, …)
     Undefined(&'static str),
 }
@@ -331,7 +334,14 @@ pub fn expected_digest_verdict(x: &[u8]) -> DigestVerdict {
                 mismatch = true;
             }
         }
-        (Some(Val::I18n(_)), _) => return DigestVerdict::Undefined("payload digest as i18n"),
+        (Some(Val::I18n(d)), alg) => {
+            // a payload digest stored as I18NSTRING: not defined when it is right, but a wrong one must not pass
+            let a_ok = matches!(&alg, Some(Val::Int32(a)) if a.first() == Some(&8));
+            if a_ok && !d.is_empty() && d[0] != sha256_hex(payload).as_bytes() && !mismatch {
+                return DigestVerdict::NotOk;
+            }
+            return DigestVerdict::Undefined("payload digest as i18n");
+        }
         (Some(_), None) | (None, Some(_)) => return DigestVerdict::Undefined("payload digest without algorithm (or vice versa)"),
         _ => return DigestVerdict::Undefined("payload digest tags with non-standard types"),
     }
@@ -368,6 +378,8 @@ pub fn oracle_digests(sub: &str, x: &[u8], p: &Package, rank: u64, case: &dyn Fn
         (DigestVerdict::Undefined(_), Observed::Panic(_)) => true, // C04's business, not judged here
         (DigestVerdict::Undefined(_), _) => true,
         (DigestVerdict::Ok, Observed::Ok) => true,
+        (DigestVerdict::NotOk, Observed::Ok) => false,
+        (DigestVerdict::NotOk, _) => true,
         (DigestVerdict::Mismatch, Observed::Mismatch) => true,
         (DigestVerdict::Unsupported, Observed::OtherErr(_)) => true,
         (DigestVerdict::Unsupported, Observed::Mismatch) => false,
